@@ -42,9 +42,9 @@ package push
 // responder that got nothing is put back, or told to give up when a newer one is registered
 //@ func (*Broker).response
 //@   prop C19
-//@   flag typeassert=panic
 //@   havoc
 //@   requires b != nil
+//@   requires [registered_responders_are_batch_channels] forall(k, ghost.cm_has[arr(b.responders)][k] ==> typeis(ghost.cm_val[arr(b.responders)][k], chan map[string][]Message))
 //@   stable b.responders
 //@   modifies ghost.*
 //@   ensures [at_most_one_responder_is_taken_and_it_is_served_or_put_back] calls(Pop) == 1 && calls(send) <= 1
@@ -59,10 +59,13 @@ package push
 
 //@ func (*Broker).Unicast
 //@   prop C19
-//@   flag typeassert=panic
 //@   havoc
 //@   requires b != nil
+//@   requires [registered_responders_are_batch_channels] forall(k, ghost.cm_has[arr(b.responders)][k] ==> typeis(ghost.cm_val[arr(b.responders)][k], chan map[string][]Message))
+//@   requires [a_client_entry_is_its_topic_table] ghost.sm_has[addr(b.messages)][str(id)] ==>
+//@       typeis(ghost.sm_val[addr(b.messages)][str(id)], *sync.Map) && as(ghost.sm_val[addr(b.messages)][str(id)], *sync.Map) != nil
 //@   requires [topic_tables_hold_caches_or_nil] ghost.sm_val[ival(ghost.sm_val[addr(b.messages)][str(id)])][str(topic)] != nil ==>
+//@       typeis(ghost.sm_val[ival(ghost.sm_val[addr(b.messages)][str(id)])][str(topic)], *MessageCache) &&
 //@       as(ghost.sm_val[ival(ghost.sm_val[addr(b.messages)][str(id)])][str(topic)], *MessageCache) != nil
 //@   modifies ghost.*
 //@   let T = ival(ghost.sm_val[addr(b.messages)][str(id)])
@@ -121,18 +124,18 @@ package push
 // the callbacks handed to Upsert return the new value (the cmap contract relies on it)
 //@ func (*Broker).message$1
 //@   prop C19
-//@   flag typeassert=panic
 //@   havoc
+//@   requires [a_replaced_entry_is_a_batch_channel] exist ==> typeis(valueInMap, chan map[string][]Message)
 //@   modifies ghost.chansent[*], ghost.chanlen[*]
 //@   ensures [stores_the_new_responder] same(result, newValue)
 
 //@ func (*Broker).message
 //@   prop C19
-//@   flag typeassert=panic
 //@   havoc
 //@   requires b != nil
-//@   requires [registered_heartbeat_signals_are_open] forall(k, ghost.cm_has[arr(b.signals)][k] ==>
+//@   requires [registered_heartbeat_signals_are_open] forall(k, ghost.cm_has[arr(b.signals)][k] ==> typeis(ghost.cm_val[arr(b.signals)][k], chan bool) &&
 //@       ival(ghost.cm_val[arr(b.signals)][k]) != 0 && ghost.chanclosed[ival(ghost.cm_val[arr(b.signals)][k])] == 0)
+//@   requires [registered_responders_are_batch_channels] forall(k, ghost.cm_has[arr(b.responders)][k] ==> typeis(ghost.cm_val[arr(b.responders)][k], chan map[string][]Message))
 //@   stable b.responders, b.signals
 //@   modifies ghost.*
 //@   loop 1 invariant ghost.chanrecv[responder] >= 0
@@ -146,30 +149,36 @@ package push
 
 //@ func (*Broker).subscribe
 //@   prop C19
-//@   flag typeassert=panic
 //@   havoc
 //@   requires b != nil
+//@   requires [a_client_entry_is_its_topic_table] forall(k, ghost.sm_has[addr(b.messages)][k] ==>
+//@       typeis(ghost.sm_val[addr(b.messages)][k], *sync.Map) && as(ghost.sm_val[addr(b.messages)][k], *sync.Map) != nil)
 //@   modifies ghost.*
 //@   atcall LoadOrStore [tables_hold_fresh_non_nil_objects] arg2 != nil && ival(arg2) != 0
 //@   ensures [subscribed_afterwards_unless_it_already_was] result ==> ghost.sm_has[ival(ghost.sm_val[addr(b.messages)][str(id)])][str(topic)]
 
 //@ func (*Broker).Deny
 //@   prop C19
-//@   flag typeassert=panic
 //@   havoc
 //@   requires b != nil
+//@   stable b.responders
+//@   requires [registered_responders_are_batch_channels] forall(k, ghost.cm_has[arr(b.responders)][k] ==> typeis(ghost.cm_val[arr(b.responders)][k], chan map[string][]Message))
+//@   requires [a_client_entry_is_its_topic_table] ghost.sm_has[addr(b.messages)][str(id)] ==>
+//@       typeis(ghost.sm_val[addr(b.messages)][str(id)], *sync.Map) && as(ghost.sm_val[addr(b.messages)][str(id)], *sync.Map) != nil
 //@   modifies ghost.*
 //@   atcall Store [a_denied_topic_is_marked_by_nil] arg2 == nil
 
 // Broadcast: per client exactly what Unicast does
 //@ func (*Broker).Broadcast$1
 //@   prop C19
-//@   flag typeassert=panic
 //@   havoc
 //@   results cont
 //@   requires b != nil && result != nil
+//@   requires [registered_responders_are_batch_channels] forall(k, ghost.cm_has[arr(b.responders)][k] ==> typeis(ghost.cm_val[arr(b.responders)][k], chan map[string][]Message))
 //@   stable result
-//@   requires [topic_tables_hold_caches_or_nil] ghost.sm_val[ival(value)][str(topic)] != nil ==> as(ghost.sm_val[ival(value)][str(topic)], *MessageCache) != nil
+//@   requires [a_client_entry_is_its_topic_table] typeis(key, string) && typeis(value, *sync.Map) && as(value, *sync.Map) != nil
+//@   requires [topic_tables_hold_caches_or_nil] ghost.sm_val[ival(value)][str(topic)] != nil ==>
+//@       typeis(ghost.sm_val[ival(value)][str(topic)], *MessageCache) && as(ghost.sm_val[ival(value)][str(topic)], *MessageCache) != nil
 //@   modifies ghost.*
 //@   let C = as(ghost.sm_val[ival(value)][str(topic)], *MessageCache)
 //@   atcall Append [only_into_the_cache_of_this_client_and_topic] arg0 == C && same(arg1.Data, data) && arg1.From == from
@@ -208,10 +217,19 @@ package push
 //@   ensures [polling_stops_only_when_the_broker_answers_nil] topics == nil && err == nil
 
 // dropping a topic (unsubscribe, heartbeat time-out): the entry may be the nil of a denied topic
+// (assumed) the application's callbacks do not reach into the broker's registries
+//@ type SubscriptionCallback(ctx, id, topic)
+//@   havoc
+//@ type UnsubscribeCallback(ctx, id, topic, messages)
+//@   havoc
+//@ fieldfunc Broker.OnSubscribe SubscriptionCallback
+//@ fieldfunc Broker.OnUnsubscribe UnsubscribeCallback
 //@ func (*Broker).offline
 //@   prop C19
 //@   havoc
 //@   requires b != nil && topics != nil
+//@   stable b.responders
+//@   requires [registered_responders_are_batch_channels] forall(k, ghost.cm_has[arr(b.responders)][k] ==> typeis(ghost.cm_val[arr(b.responders)][k], chan map[string][]Message))
 //@   requires [a_table_entry_is_a_cache_or_the_nil_of_a_denied_topic] ghost.sm_val[ref(topics)][str(topic)] == nil ||
 //@       (typeis(ghost.sm_val[ref(topics)][str(topic)], *MessageCache) && as(ghost.sm_val[ref(topics)][str(topic)], *MessageCache) != nil)
 //@   modifies ghost.*
